@@ -13,6 +13,7 @@ from vf.runner import Ob
 from vf.sched import Sched
 
 LEVEL = "other"
+TECHNIQUE = ('symx: symbolic schedule incl. in-flight request positions and symbolic pause durations over the real S3 commit path and CAS lock on FakeS3; concrete replay')
 EXPLANATION = (
     "Bounded symbolic execution (symx/z3) of the real S3 commit path under a baton scheduler with in-flight "
     "request positions and symbolic pause durations; serial-model and fencing assertions discharged per path, "
